@@ -19,4 +19,9 @@ CHECKS = {
   "note": "Trusted: driver gdrv_adj (pure function of its command stream), numpy to admit only resolving min_x subsets.",
   "technique": "stateful / model-based property testing (Hypothesis-generated call histories vs fresh-object oracle)",
  },
+ "C05": {
+  "text": "Generated-input search: every row of the design matrix produced by the real parser + LocalLinearization for generated small networks (all axes/angle conventions, statuses, observation types, large misclosures) is compared with analytic derivatives and misclosures from an independent observation model written from the documentation.",
+  "note": "Trusted: vlib/netmodel.py (documented semantics), the driver's re-run of LocalLinearization on the active observations. Slope observations with instrument heights are compared with the mark-to-mark derivative (gama reduces them to the marks). Singular sights excluded by construction.",
+  "technique": "property-based testing (Hypothesis) against an analytic reference model of the observation functions",
+ },
 }
